@@ -21,7 +21,7 @@ git -C $wt apply $src/patch.diff || { echo "patch does not apply" > $out.verdict
 (cd $wt && /venv/bin/python -m compileall -q loky > $out.compile.txt 2>&1; echo "exit=$?" >> $out.compile.txt)
 run_demo with
 if [ "$mode" = full ]; then
-  (cd $wt && PYTHONPATH=$wt setsid timeout -k 5 3300 /venv/bin/python -m pytest -q -p no:cacheprovider --timeout=900 --continue-on-collection-errors -x --deselect tests/test_loky_module.py::test_cpu_count_cgroup_limit --deselect tests/test_reusable_executor.py::TestTerminateExecutor::test_sigkill_shutdown_leaks_workers > $out.tests.txt 2>&1 < /dev/null; echo "exit=$?" >> $out.tests.txt)
+  (cd $wt && PYTHONPATH=$wt setsid timeout -k 5 3300 /venv/bin/python -m pytest -q -p no:cacheprovider --timeout=900 --continue-on-collection-errors --deselect tests/test_loky_module.py::test_cpu_count_cgroup_limit --deselect tests/test_reusable_executor.py::TestTerminateExecutor::test_sigkill_shutdown_leaks_workers > $out.tests.txt 2>&1 < /dev/null; echo "exit=$?" >> $out.tests.txt)
 fi
 rm -f /dev/shm/sem.loky-* 2>/dev/null
 { echo "without: $(grep -E "^exit=" $out.demo_without.txt | tail -1)"; echo "with: $(grep -E "^exit=" $out.demo_with.txt | tail -1)"; echo "compile: $(tail -1 $out.compile.txt)"; [ "$mode" = full ] && echo "tests: $(tail -3 $out.tests.txt | tr '\n' ' ')"; } > $out.verdict
